@@ -127,10 +127,11 @@ func leafAlterations(v interface{}) map[string]interface{} {
 		if err := json.Unmarshal(nb, p.Interface()); err != nil {
 			return
 		}
-		alt := p.Elem().Interface()
-		ab, _ := json.Marshal(alt)
-		if string(ab) != string(body) {
-			out[path] = alt
+		// The altered JSON itself goes on the wire (not a re-encoding through
+		// the project's own types, whose marshallers are part of what is being
+		// checked: a field they drop or blank would otherwise be invisible here).
+		if string(nb) != string(body) {
+			out[path] = json.RawMessage(nb)
 		}
 	}
 	walk = func(path string, node interface{}, set func(interface{})) {
